@@ -724,6 +724,20 @@ pub fn dump_hostile() {
 	}
 }
 
+/// how the libFuzzer target `c16_text` picks the parser from its first byte
+pub fn fuzz_text_target(b: u8) -> Target {
+	match b % 8 {
+		0 => Target::Tiny2,
+		1 => Target::Tiny3,
+		2 => Target::Enigma,
+		3 => Target::Nests,
+		4 => Target::FieldDesc,
+		5 => Target::MethodDesc,
+		6 => Target::ReturnDesc,
+		_ => Target::TinyDiff,
+	}
+}
+
 pub fn hex(b: &[u8]) -> String {
 	b.iter().map(|x| format!("{x:02x}")).collect()
 }
@@ -921,4 +935,43 @@ pub fn run(ctx: &mut Ctx) {
 		}
 	});
 	ctx.extra.insert("verdict_signatures".into(), json!(verdict_counts));
+
+	// coverage-guided campaigns (thorough tier): any panic / abort / allocation above 1 GiB inside the targets is a violation
+	if ctx.tier == Tier::Thorough {
+		let class_seeds: Vec<Vec<u8>> = crate::corpus::load().into_iter().map(|x| x.1).filter(|b| b.len() < 6000).chain(hostile_class_files(false).into_iter().map(|x| x.1).filter(|b| b.len() < 6000)).collect();
+		let o = crate::fuzzrun::campaign(ctx, "c16_bytes", 150, &class_seeds, 8192);
+		let via_child = |target: Target| {
+			move |input: &[u8]| -> (Value, Result<(), String>) {
+				let case = json!({"target": target, "fault": "libfuzzer", "role": "", "input_hex": hex(input), "input_len": input.len()});
+				let dir = crate::engine::Scratch::new("c16fuzz");
+				let p = dir.path.join("case.json");
+				let _ = std::fs::write(&p, json!({"sub": "totality", "case": case}).to_string());
+				let v = one_in_child(&p);
+				(case, if v == Verdict::Fine || v == Verdict::Watchdog { Ok(()) } else { Err(format!("{v:?}")) })
+			}
+		};
+		crate::fuzzrun::report(ctx, sub, "c16_bytes", o, &via_child(Target::DukeTree));
+		let mut sm = Sampler::new(ctx.seed ^ 0xF022);
+		let cfg = GenCfg { ns_min: 2, ns_max: 2, max_classes: 3, max_fields: 2, max_methods: 2, max_params: 2, p_missing: 20, style: TargetStyle::Extended, enigma_safe: true, injective: true, p_nested: 40, docs: true, ..GenCfg::default() };
+		let mut text_seeds: Vec<Vec<u8>> = Vec::new();
+		for _ in 0..6 {
+			let m2 = sm.draw(&mapset(cfg.clone()));
+			text_seeds.push([&[0u8][..], text::tiny(&m2, 0).as_bytes()].concat());
+			text_seeds.push([&[2u8][..], text::enigma(&m2).as_bytes()].concat());
+			text_seeds.push([&[3u8][..], nests_text(&m2).as_bytes()].concat());
+			let b = edit(&m2, 1, &sm.draw(&draws()));
+			if let Some(d) = refops::diff(&m2, &b) {
+				text_seeds.push([&[7u8][..], text::tinydiff(&d, 0).as_bytes()].concat());
+			}
+		}
+		text_seeds.push(b"\x05(Lx;[[I)V".to_vec());
+		let o = crate::fuzzrun::campaign(ctx, "c16_text", 120, &text_seeds, 4096);
+		crate::fuzzrun::report(ctx, sub, "c16_text", o, &|input: &[u8]| {
+			if input.is_empty() {
+				return (json!({}), Ok(()));
+			}
+			let t = fuzz_text_target(input[0]);
+			via_child(t)(&input[1..])
+		});
+	}
 }
